@@ -292,6 +292,35 @@ func checkC04(r *core.Run) {
 	r.Count("handshake_obligations", nObl)
 
 	// ---- TICK: VM.Step runs the deferred releases on every normally returning path
+	// wrappers: a method of VM whose first statement calls ExecuteDeferredInstructions (directly, or in
+	// the init of an if) runs the deferred releases whenever it is called
+	runsDeferred := map[types.Object]bool{}
+	core.FuncDecls(pk, func(_ *ast.File, fd *ast.FuncDecl) {
+		if core.RecvTypeName(info, fd) != "VM" || len(fd.Body.List) == 0 || fd.Name.Name == "ExecuteDeferredInstructions" {
+			return
+		}
+		var first ast.Node = fd.Body.List[0]
+		if ifs, ok := first.(*ast.IfStmt); ok && ifs.Init != nil {
+			first = ifs.Init
+		}
+		hit := false
+		ast.Inspect(first, func(m ast.Node) bool {
+			if _, isBlock := m.(*ast.BlockStmt); isBlock {
+				return false
+			}
+			if c, ok := m.(*ast.CallExpr); ok {
+				if o := core.CalleeOf(info, c); o != nil && o.Name() == "ExecuteDeferredInstructions" {
+					hit = true
+				}
+			}
+			return true
+		})
+		if hit {
+			if o := info.Defs[fd.Name]; o != nil {
+				runsDeferred[o] = true
+			}
+		}
+	})
 	core.FuncDecls(pk, func(_ *ast.File, fd *ast.FuncDecl) {
 		if fd.Name.Name != "Step" || core.RecvTypeName(info, fd) != "VM" {
 			return
@@ -306,7 +335,7 @@ func checkC04(r *core.Run) {
 				found := false
 				ast.Inspect(n, func(m ast.Node) bool {
 					if c, ok := m.(*ast.CallExpr); ok {
-						if o := core.CalleeOf(info, c); o != nil && o.Name() == "ExecuteDeferredInstructions" {
+						if o := core.CalleeOf(info, c); o != nil && (o.Name() == "ExecuteDeferredInstructions" || runsDeferred[o]) {
 							found = true
 						}
 					}
